@@ -1010,6 +1010,22 @@ pub fn taconite(fwd: &[f64], rev: &[f64]) -> anyhow::Result<Vec<(String, String)
     for s in &sims {
         ets.push(make_est_times(s.clone(), &links)?.0);
     }
+    // the est-time monitors (C15) on the shipped trains' networks
+    let mut est_viol: Vec<(String, String)> = vec![];
+    {
+        let mut c2 = Ctx::default();
+        let mut rng = Rng::new(1);
+        for (t, (s, et)) in sims.iter().zip(&ets).enumerate() {
+            let origs: Vec<usize> = s.origs.iter().map(|l| l.link_idx.idx()).collect();
+            let dests: Vec<usize> = s.dests.iter().map(|l| l.link_idx.idx()).collect();
+            check_est_net(&mut c2, t, et, &links, &origs, &dests, s.state.length.value, &mut rng);
+        }
+        for v in &c2.viol {
+            let known = crate::findings::classify(v).unwrap_or_default();
+            est_viol.push((format!("{}/{}{}", v.monitor, v.clause, if known.is_empty() { String::new() } else { format!(" [open finding {known}]") }), v.detail.clone()));
+        }
+        eprintln!("est-time nets checked: {} nodes, {} monitor events", ets.iter().map(|e| e.val.len()).sum::<usize>(), c2.viol.len());
+    }
     OBS.with(|o| {
         *o.borrow_mut() = Some(Obs { prev_committed: vec![], committed_changed: 0, stale_blocks: 0, fwd: fwd.iter().map(|_| true).chain(rev.iter().map(|_| false)).collect(), links: links.clone(), n_trains: sims.len(), spacing: 8.0 * 60.0, calls: 0, viol: vec![], first_seen: BTreeMap::new(), last_free: vec![], last_path: vec![], rewinds: 0, reroutes: 0, two_en_route: 0, opposing_en_route: 0, moves: vec![], final_views: vec![], budget_hit: false, trace: 0 })
     });
@@ -1020,6 +1036,7 @@ pub fn taconite(fwd: &[f64], rev: &[f64]) -> anyhow::Result<Vec<(String, String)
     let ob = OBS.with(|o| o.borrow_mut().take()).unwrap();
     eprintln!("observer calls {} rewinds {} reroutes {} two_en_route {} opposing_en_route {}", ob.calls, ob.rewinds, ob.reroutes, ob.two_en_route, ob.opposing_en_route);
     let mut out: Vec<(String, String)> = ob.viol.into_iter().map(|v| (v.0, v.1)).collect();
+    out.extend(est_viol);
     match res {
         Err(_) => { let (m, l) = crate::take_last_panic(); out.push(("panic".into(), format!("{l}: {m}"))) }
         Ok(Err(e)) => eprintln!("dispatch error: {e:#}"),
